@@ -12,11 +12,14 @@ from symx.core import SymBytes, SymInt, Unsupported, _items_of
 class SymFS(object):
     def __init__(self):
         self.files = {}      # path -> list of items
+        self.torn = {}       # path -> (SymInt r, items): the first r bytes of `items` follow the content
         self.dirs = set()
         self.log = []        # (path, offset, items, was_append)
         self.logging = True
 
     def reset(self):
+        self.logging = True
+        self.torn.clear()
         self.files.clear()
         self.dirs.clear()
         del self.log[:]
@@ -33,6 +36,7 @@ class SymFile(object):
         self.pos = 0
         self.closed = False
         if mode in ("wb+", "w+b"):
+            fs.torn.pop(path, None)
             fs.files[path] = []
             if fs.logging:
                 fs.log.append((path, "truncate", (), False))
@@ -42,12 +46,22 @@ class SymFile(object):
         else:
             raise Unsupported("open mode %r" % mode)
 
-    def _buf(self):
+    def _buf(self, resolve=True):
         if self.closed:
             raise ValueError("I/O operation on closed file.")
+        if resolve and self.path in self.fs.torn:
+            # content of a torn tail is needed: fork over every feasible number of persisted bytes
+            r, items = self.fs.torn.pop(self.path)
+            k = r.__index__() if hasattr(r, "__index__") else int(r)
+            self.fs.files[self.path].extend(items[:k])
         return self.fs.files[self.path]
 
     def seek(self, off, whence=0):
+        if whence == 2 and self.path in self.fs.torn:
+            # only the length is asked for: keep the number of torn bytes symbolic
+            buf = self._buf(resolve=False)
+            self.pos = self.fs.torn[self.path][0] + (len(buf) + off)
+            return self.pos
         buf = self._buf()
         if whence == 0:
             self.pos = off
@@ -58,11 +72,13 @@ class SymFile(object):
         return self.pos
 
     def tell(self):
-        self._buf()
+        self._buf(resolve=False)
         return self.pos
 
     def read(self, n=-1):
         buf = self._buf()
+        if isinstance(self.pos, SymInt):
+            self.pos = self.pos.__index__()
         if n is None or n < 0:
             n = max(0, len(buf) - self.pos)
         seg = buf[self.pos:self.pos + n]
@@ -71,6 +87,8 @@ class SymFile(object):
 
     def write(self, data):
         buf = self._buf()
+        if isinstance(self.pos, SymInt):
+            self.pos = self.pos.__index__()
         items = _items_of(data)
         if items is None:
             raise TypeError("a bytes-like object is required")
